@@ -143,6 +143,11 @@ func Sleep(d time.Duration) {
 		time.Sleep(d)
 		return
 	}
+	if t := s.caller(); t != nil && t.Site < 0 && t.Class != "afterfunc" && t.Class != "main" {
+		// a task of the harness (workload, application, peer) going to sleep is an event of the
+		// run: the idling that follows is a pause of the workload, not the end of it
+		s.events++
+	}
 	done := false
 	s.At(d, func() { done = true })
 	s.park(gate{kind: gWait, site: -1, cond: func() bool { return done }})
